@@ -1504,6 +1504,9 @@ Hendaccess(int32 access_id)
     /* if special elt, call special function */
     if (access_rec->special) {
         ret_value = (*access_rec->special_func->endaccess)(access_rec);
+        /* every special endaccess function releases the access record
+           itself, also when it fails: do not release it again below */
+        access_rec = NULL;
         goto done;
     } /* end if */
 
